@@ -11,6 +11,7 @@ import (
 	"strings"
 	"time"
 
+	"github.com/aundis/formula"
 	"github.com/ericlagergren/decimal"
 )
 
@@ -61,6 +62,18 @@ var badUnicodeTexts = []string{"\u0662 * 3", "\u0301a + 1", "\u0662x", "1 + \u06
 var localNames = []string{"$a", "$b", "$c"}
 
 func (g *gen) pick(xs []string) string { return xs[g.s.Intn(len(xs))] }
+
+// freshName: a field name nobody has used before (absent from the data: it reads as null). A
+// process that serves many tenants meets thousands of distinct names over its life.
+func (g *gen) freshName() string {
+	words := []string{"customer", "billing", "address", "line", "total", "net", "gross", "tax", "rate", "qty", "unit", "price", "region", "code", "订单", "金额"}
+	n := 1 + g.s.Intn(4)
+	var p []string
+	for i := 0; i < n; i++ {
+		p = append(p, words[g.s.Intn(len(words))])
+	}
+	return strings.Join(p, "_") + "_" + strconv.FormatUint(g.s.Draw(1<<40), 36)
+}
 
 // genDeep: shapes whose evaluation and parsing recurse deeply - a long
 // left-nested chain of one operator, deep parentheses, deeply nested calls or
@@ -116,6 +129,13 @@ func genFormula(s *Stream, cfg genCfg) string {
 		return brokenTexts[s.Intn(len(brokenTexts))]
 	}
 	g := &gen{s: s, cfg: cfg, budget: 1 + s.Intn(cfg.maxNodes)}
+	if s.Intn(10) == 0 { // a formula over fields nobody has named before (another tenant's record)
+		var names []string
+		for i, n := 0, 4+s.Intn(20); i < n; i++ {
+			names = append(names, g.freshName())
+		}
+		return "[" + strings.Join(names, ", ") + "]"
+	}
 	var parts []string
 	n := 1
 	if cfg.assign && s.Bool(1, 3) {
@@ -282,11 +302,15 @@ func (g *gen) num(d int, leaf bool) string {
 		return "roundCash(" + e(tNum) + ", 2)"
 	case 17:
 		if g.cfg.hostFns {
-			switch g.s.Intn(5) {
+			switch g.s.Intn(7) {
 			case 0:
 				return "f_med(" + g.pick([]string{"fs1", "fs1", "an1", "is1", "[3, 1, 2]"}) + ")"
 			case 1:
 				return "f_fill(" + g.pick([]string{"o1", "m1", "o1.c"}) + ", " + g.pick([]string{"an1", "an2", "[1, 2]"}) + ")"
+			case 2: // a host call that evaluates something itself, to the right of an argument already evaluated
+				return "f_sum(" + e(tNum) + ", f_re(" + strconv.Itoa(g.s.Intn(50)) + "))"
+			case 3:
+				return "max(" + e(tNum) + ", f_re(" + e(tNum) + "), " + e(tNum) + ")"
 			}
 			return "f_sum(" + e(tNum) + ", " + strconv.Itoa(g.s.Intn(50)) + ")"
 		}
@@ -453,7 +477,8 @@ func (g *gen) tim(d int, leaf bool) string {
 	case 0:
 		return fmt.Sprintf("addDate(%s, %d, %d, %d)", e(tTime), g.s.Intn(5)-2, g.s.Intn(30)-15, g.s.Intn(80)-40)
 	case 1:
-		return "useTimezone(" + e(tTime) + ", " + g.pick([]string{"'UTC'", "'Asia/Shanghai'", "'America/New_York'", "'No/Where'"}) + ")"
+		return "useTimezone(" + e(tTime) + ", " + g.pick([]string{"'UTC'", "'Asia/Shanghai'", "'America/New_York'", "'No/Where'",
+			"'Europe/London'", "'Asia/Kathmandu'", "'Etc/GMT+5'", "'Australia/Lord_Howe'", "'EST'", "'Sim/Torn'", "'Sim/Missing'", "'Sim/Shanghai'"}) + ")"
 	case 2:
 		if g.cfg.clockFns {
 			return g.pick([]string{"now()", "toDay()"})
@@ -468,6 +493,9 @@ func (g *gen) tim(d int, leaf bool) string {
 
 func (g *gen) any(d int, leaf bool) string {
 	if leaf {
+		if g.s.Intn(8) == 0 {
+			return g.freshName()
+		}
 		return g.pick([]string{"Max", "Len", "null", "z1", "this.s1", "o1", "o1.c", "nope", "nope.x", "l1", "st1", "1", "'s'", "true", "$a", "ctx", "m1",
 			"cv.name", "cv.Name", "cv.NAME", "cv.naME", "cv", "tz"})
 	}
@@ -749,6 +777,30 @@ func (d dataSpec) build(log *hostLog, loc *time.Location) map[string]interface{}
 				xs[i] = "overwritten"
 			}
 			return len(mm) + len(xs), nil
+		}
+		// evaluates another formula while the calling evaluation is under way, on the runner the
+		// context names (the calling one or another one), and hands its argument back
+		m["f_re"] = func(ctx context.Context, x interface{}) (interface{}, error) {
+			log.add("f_re(" + render(x) + ")")
+			if err := log.tick(); err != nil {
+				return nil, err
+			}
+			r, _ := ctx.Value(reKeyT{}).(*formula.Runner)
+			if r == nil {
+				return x, nil
+			}
+			src, perr := formula.ParseSourceCode([]byte("max(100, 1) - 93 + len('ab')"))
+			if perr != nil {
+				return nil, perr
+			}
+			v, err := r.Resolve(ctx, src.Expression)
+			if err != nil {
+				return nil, err
+			}
+			if f, ok := v.(float64); !ok || f != 9 {
+				return nil, errors.New("the formula evaluated inside the host function gave " + render(v))
+			}
+			return x, nil
 		}
 		m["f_map"] = func(mm map[string]int) (int, error) {
 			t := 0
